@@ -63,6 +63,9 @@ type Profile struct {
 	PRange        float64
 	PConnHdr      float64 // hop-by-hop material
 	PCCSpell      float64 // alternative spellings of Cache-Control
+	PClientCond   float64 // client-supplied conditional headers
+	PAdvVary      float64 // adversarial selecting header values
+	WideStatus    bool    // statuses drawn from all of 100-599
 	Statuses      []int
 	Methods       []string
 	URLs          int // number of distinct resources
@@ -298,7 +301,7 @@ func (g *G) reqDirectives(p *Profile) []directive {
 var varyFields = []string{"Accept-Encoding", "X-Custom", "Accept-Language", "User-Agent"}
 
 func (g *G) varyValue() string {
-	switch g.intn(8) {
+	switch g.intn(10) {
 	case 0:
 		return "*"
 	case 1:
@@ -309,6 +312,10 @@ func (g *G) varyValue() string {
 		return "Accept-Language"
 	case 4:
 		return "User-Agent"
+	case 5:
+		return "X-Custom, X-Other"
+	case 6:
+		return "Accept-Encoding, *"
 	default:
 		return "Accept-Encoding"
 	}
@@ -337,6 +344,12 @@ func (g *G) genRep(p *Profile, idx int, approx time.Time, conditional bool) Rep 
 		return Rep{Err: true}
 	}
 	status := p.Statuses[g.intn(len(p.Statuses))]
+	if p.WideStatus && g.chance(0.5) {
+		status = 100 + g.intn(500)
+		if status == 100 || status == 101 || status == 103 {
+			status = 102 // final-looking 1xx that a RoundTripper can hand back as a response
+		}
+	}
 	if g.chance(p.PErrReply / 2) {
 		status = g.pickI(500, 502, 503, 504, 501, 400)
 	}
@@ -467,6 +480,21 @@ func (g *G) genCase(p *Profile, id string) *Case {
 		if g.chance(p.PRange) {
 			rq.Hdrs = append(rq.Hdrs, Hdr{"Range", []string{"bytes=0-1"}})
 		}
+		if g.chance(p.PClientCond) {
+			if g.chance(0.6) {
+				rq.Hdrs = append(rq.Hdrs, Hdr{"If-None-Match", []string{fmt.Sprintf(`"v%d"`, g.intn(3))}})
+			} else {
+				rq.Hdrs = append(rq.Hdrs, Hdr{"If-Modified-Since", []string{httpDate(epoch.Add(-time.Hour))}})
+			}
+		}
+		if g.chance(p.PAdvVary) {
+			// values that look like other names and values glued together
+			rq.Hdrs = append(rq.Hdrs[:0:0], Hdr{"X-Custom", []string{g.pick("1", "1X-Other2", "aAccept-Encodinggzip", "b")}},
+				Hdr{"X-Other", []string{g.pick("2", "", "b")}})
+			if g.chance(0.5) {
+				rq.Hdrs = rq.Hdrs[:1]
+			}
+		}
 		c.Reqs = append(c.Reqs, rq)
 	}
 	// one script entry per request plus spares for background revalidations
@@ -507,6 +535,43 @@ func init() {
 		p.PCCSpell, p.PReqCC, p.PBigNum, p.URLs, p.PUnsafe = 0.9, 0.6, 0.2, 1, 0.02
 		p.PNoCache, p.PMustReval, p.PSWR, p.PSIE = 0.25, 0.3, 0.3, 0.25
 		p.PLocation, p.PConnHdr, p.PRange = 0.0, 0.0, 0.0
+	})
+	profiles["inval"] = derive("inval", func(p *Profile) {
+		p.NReq = [2]int{4, 8}
+		p.PUnsafe, p.PLocation, p.URLs, p.PVary, p.PErrReply = 0.35, 0.6, 4, 0.3, 0.1
+		p.PReqCC, p.PSpelling, p.PConnHdr, p.PRange = 0.15, 0.5, 0.0, 0.02
+		p.Methods = []string{"POST", "PUT", "DELETE", "PATCH", "HEAD", "OPTIONS", "PROPFIND", "MKCOL", "FOO", "post", "LOCK", "QUERY", "TRACE"}
+	})
+	profiles["vary"] = derive("vary", func(p *Profile) {
+		p.NReq = [2]int{4, 9}
+		p.PVary, p.PAdvVary, p.URLs, p.PUnsafe, p.PReqCC = 0.75, 0.3, 1, 0.03, 0.15
+		p.PLocation, p.PConnHdr, p.PRange, p.PErrReply = 0.0, 0.0, 0.0, 0.03
+	})
+	profiles["store"] = derive("store", func(p *Profile) {
+		p.NReq = [2]int{3, 6}
+		p.WideStatus, p.PBodyFail, p.PClientCond, p.PRange, p.PUnsafe = true, 0.12, 0.25, 0.1, 0.2
+		p.PReqCC, p.URLs, p.PHeuristic = 0.35, 2, 0.4
+	})
+	profiles["freshen"] = derive("freshen", func(p *Profile) {
+		p.NReq = [2]int{4, 9}
+		p.PValidators, p.PSWR, p.PVary, p.URLs, p.PUnsafe = 0.9, 0.35, 0.35, 1, 0.02
+		p.PErrReply, p.PLocation, p.PRange, p.PReqCC = 0.05, 0.0, 0.0, 0.2
+	})
+	profiles["hit"] = derive("hit", func(p *Profile) {
+		p.NReq = [2]int{3, 7}
+		p.PSpelling, p.PReqCC, p.PNoCache, p.PMustReval, p.PUnsafe = 0.7, 0.1, 0.03, 0.05, 0.02
+		p.PHeuristic, p.URLs, p.PVary, p.PErrReply, p.PRange, p.PLocation = 0.35, 2, 0.4, 0.02, 0.0, 0.0
+		p.Statuses = []int{200, 200, 200, 203, 301, 404, 405, 410, 414, 501, 308, 204, 302}
+	})
+	profiles["age"] = derive("age", func(p *Profile) {
+		p.NReq = [2]int{3, 7}
+		p.PAge, p.PDate, p.PSkew, p.PSWR, p.PSIE, p.POnlyIfCached = 0.5, 0.5, 0.5, 0.35, 0.3, 0.2
+		p.PReqCC, p.PErrReply, p.URLs, p.PUnsafe, p.PBigNum = 0.5, 0.2, 1, 0.05, 0.1
+	})
+	profiles["sie"] = derive("sie", func(p *Profile) {
+		p.NReq = [2]int{3, 7}
+		p.PSIE, p.PErrReply, p.PReqCC, p.PMustReval, p.PNoCache = 0.6, 0.5, 0.5, 0.2, 0.15
+		p.URLs, p.PUnsafe, p.PValidators, p.PLocation, p.PRange = 1, 0.02, 0.7, 0.0, 0.0
 	})
 	profiles["oic"] = derive("oic", func(p *Profile) {
 		p.NReq = [2]int{3, 6}
